@@ -94,6 +94,15 @@ Theorem C01_roundtrip_direct : forall f ep s gid g,
 Proof. exact roundtrip_direct. Qed.
 Print Assumptions C01_roundtrip_direct.
 
+(* a refused import (a node without NodeID) under a graph id not in use leaves the store exactly as it was: no node
+   under the refused id, the id counter not moved - so the import that follows is not affected *)
+Theorem C01_refused_import_leaves_store : forall ep s t gid g,
+  is_direct ep = false -> text_graph t = Some g -> graph_shape g = true -> graph_ids_ok g = false ->
+  existsb (has_gid gid) (s_nodes s) = false ->
+  import_via ep s t gid = (s, RErrImport).
+Proof. exact import_refused. Qed.
+Print Assumptions C01_refused_import_leaves_store.
+
 (* ================= serializing the copy again ================= *)
 (* the second text denotes exactly the imported copy, whose content is that of the first text (up to the stamp) *)
 Theorem C01_reserialize_stable_restamp : forall f s gid' g,
